@@ -172,6 +172,40 @@ func Enrich(t *rapid.T, md protoreflect.MessageDescriptor, x *model.Msg, o MsgOp
 	var slots []slot
 	var msgs []msgRef
 	walk(md, x, 0, o.Resolver, &slots, &msgs)
+	// shapes: make sure maps, oneofs, lists and submessages are not rare just because the random
+	// selection of a few fields missed them
+	shapes := []struct {
+		name string
+		want func(protoreflect.FieldDescriptor) bool
+	}{
+		{"map", func(fd protoreflect.FieldDescriptor) bool { return fd.IsMap() }},
+		{"oneof", func(fd protoreflect.FieldDescriptor) bool {
+			return fd.ContainingOneof() != nil && !fd.ContainingOneof().IsSynthetic()
+		}},
+		{"list", func(fd protoreflect.FieldDescriptor) bool { return fd.IsList() }},
+		{"submessage", func(fd protoreflect.FieldDescriptor) bool {
+			return fd.Message() != nil && !fd.IsMap() || fd.IsMap() && fd.MapValue().Message() != nil
+		}},
+	}
+	added := false
+	for _, sh := range shapes {
+		have := false
+		for _, s := range slots {
+			have = have || sh.want(s.fd)
+		}
+		if !have && rapid.Bool().Draw(t, "plant-"+sh.name+"?") {
+			deeper := o
+			deeper.Depth = 3 // addFieldWhere draws the new field with Depth-1 levels below it
+			if _, ok := addFieldWhereDepth(t, msgs, deeper, sh.want, 2); ok {
+				labels = append(labels, "planted-"+sh.name)
+				added = true
+			}
+		}
+	}
+	if added {
+		slots, msgs = nil, nil
+		walk(md, x, 0, o.Resolver, &slots, &msgs)
+	}
 	if rapid.IntRange(0, 1).Draw(t, "plant-float?") == 0 {
 		var fl []slot
 		for _, s := range slots {
@@ -255,6 +289,10 @@ func Enrich(t *rapid.T, md protoreflect.MessageDescriptor, x *model.Msg, o MsgOp
 // addFieldWhere populates, in some message of the tree, one not yet populated field accepted by
 // want, and returns the new value slots.
 func addFieldWhere(t *rapid.T, msgs []msgRef, o MsgOpts, want func(protoreflect.FieldDescriptor) bool) ([]slot, bool) {
+	return addFieldWhereDepth(t, msgs, o, want, 1)
+}
+
+func addFieldWhereDepth(t *rapid.T, msgs []msgRef, o MsgOpts, want func(protoreflect.FieldDescriptor) bool, depth int) ([]slot, bool) {
 	type cand struct {
 		mr msgRef
 		fd protoreflect.FieldDescriptor
@@ -272,7 +310,7 @@ func addFieldWhere(t *rapid.T, msgs []msgRef, o MsgOpts, want func(protoreflect.
 	}
 	c := cands[rapid.IntRange(0, len(cands)-1).Draw(t, "add-where")]
 	so := o
-	so.Depth = 1
+	so.Depth = depth
 	f, ok := drawField(t, c.fd, so)
 	if !ok {
 		return nil, false
@@ -331,16 +369,30 @@ func canAdd(m *model.Msg, fd protoreflect.FieldDescriptor) bool {
 
 // NearMissKinds are the derivations NearMiss draws from.
 var NearMissKinds = []string{
-	"copy", "indep",
-	"scalar", "scalar", "mapval", "mapkey", "listlen", "listswap",
-	"nan", "zero", "nilbytes", "touch",
+	// rapid favours the ends of a sampled slice, so the plain derivations sit in the middle
+	"scalar", "mapval", "oneof-switch", "nan", "zero", "nilbytes", "listlen", "mapkey",
 	"unknown-change", "unknown-perm-across", "unknown-perm-within",
-	"field-drop", "field-add", "oneof-switch", "submsg-empty",
+	"copy", "indep", "touch", "field-drop", "field-add", "submsg-empty", "listswap",
+	"unknown-change", "unknown-perm-across", "unknown-perm-within",
+	"nan", "zero", "nilbytes", "listlen", "oneof-switch", "mapval", "scalar",
 }
 
-// NearMiss derives a message model from base without modifying base.
+// NearMiss derives a message model from base without modifying base. A drawn derivation that
+// finds no site in base (no map, no NaN, ...) is redrawn a few times before settling for a copy.
 func NearMiss(t *rapid.T, md protoreflect.MessageDescriptor, base *model.Msg, o MsgOpts) Derived {
-	kind := rapid.SampledFrom(NearMissKinds).Draw(t, "derivation")
+	for try := 0; ; try++ {
+		kind := rapid.SampledFrom(NearMissKinds).Draw(t, "derivation")
+		if try > 0 && kind == "indep" {
+			continue // a retry looks for another near miss, not for an unrelated message
+		}
+		d := nearMiss(t, md, base, o, kind)
+		if d.Label != "copy" || kind == "copy" || try >= 6 {
+			return d
+		}
+	}
+}
+
+func nearMiss(t *rapid.T, md protoreflect.MessageDescriptor, base *model.Msg, o MsgOpts, kind string) Derived {
 	if kind == "indep" {
 		return Derived{M: DrawMessage(t, md, o), Label: "indep"}
 	}
